@@ -666,5 +666,51 @@ theorem bound_relativeTo_attained {A R C : Interval α} (hA : A.WF) (hR : R.WF)
 
 end field2
 
+section field3
+variable {α : Type} [Field α] [LinearOrder α] [IsStrictOrderedRing α]
+attribute [local instance] NumOps.ofField
+
+/-- two-sided against two-sided, `0 ≤ x ≤ y`, `0 < a ≤ b`: the result denotes exactly the set of
+    the values `(X - r)/r` -/
+theorem image2_rel_Icc {x y a b : α} (hx : 0 ≤ x) (hxy : x ≤ y) (ha : 0 < a) (hab : a ≤ b) :
+    Icc ((x - b) / b) ((y - a) / a) = image2 (fun X r => (X - r) / r) (Icc x y) (Icc a b) := by
+  have hb : 0 < b := lt_of_lt_of_le ha hab
+  ext z
+  simp only [mem_image2, mem_Icc]
+  constructor
+  · rintro ⟨h1, h2⟩
+    rw [div_le_iff₀ hb] at h1
+    rw [le_div_iff₀ ha] at h2
+    by_cases hc : (z + 1) * b ≤ y
+    · refine ⟨(z + 1) * b, ⟨by linarith, hc⟩, b, ⟨hab, le_rfl⟩, ?_⟩
+      field_simp
+      ring
+    · have hc' : y < (z + 1) * b := not_le.mp hc
+      have hy : 0 ≤ y := hx.trans hxy
+      have hw : 0 < z + 1 := by
+        by_contra hneg
+        have : (z + 1) * b ≤ 0 := mul_nonpos_of_nonpos_of_nonneg (not_lt.mp hneg) hb.le
+        linarith
+      refine ⟨y, ⟨hxy, le_rfl⟩, y / (z + 1), ⟨?_, ?_⟩, ?_⟩
+      · rw [le_div_iff₀ hw]; linarith
+      · rw [div_le_iff₀ hw]; linarith
+      · have hy0 : y ≠ 0 := by
+          rintro rfl
+          have : (z + 1) * a ≤ 0 := by linarith
+          have : 0 < (z + 1) * a := mul_pos hw ha
+          linarith
+        field_simp
+        ring
+  · rintro ⟨X, ⟨hX1, hX2⟩, r, ⟨hr1, hr2⟩, rfl⟩
+    have hr : 0 < r := lt_of_lt_of_le ha hr1
+    exact ⟨rel_lower_le hx hX1 hr hr2, rel_le_upper (hx.trans hX1) hX2 ha hr1⟩
+
+/-- against a reference that is unbounded above the result `(-∞, (y - a)/a]` is NOT tight on its
+    unbounded side: every value `(X - r)/r` with `X ≥ 0`, `r > 0` is at least `-1` -/
+theorem rel_ge_neg_one {X r : α} (hX : 0 ≤ X) (hr : 0 < r) : -1 ≤ (X - r) / r := by
+  rw [le_div_iff₀ hr]; linarith
+
+end field3
+
 end Interval
 end StatsCI
